@@ -301,6 +301,8 @@ def c10(case, rec=None):
             for c, f, lab in items:
                 if c.kind == "elementwise" or f.get("upscale") or not lab.get("kernel") or lab.get("ifm_box") is None or lab.get("explicit_padding") is None:
                     continue
+                if lab.get("padding") == "TILE":
+                    continue  # edge replication through side-by-side tiles instead of padding registers (half-pixel bilinear resize): not a zero-padding geometry
                 kw, kh, sx, sy, dx, dy = lab["kernel"]
                 dk = dy * (kh - 1) + 1
                 P_top = lab["explicit_padding"][0]
